@@ -62,6 +62,11 @@ func vh_C01_E2E_reliable_transfer() { vh_C02_L1_reliable_transfer_one_fault() }
 func vh_C01_L6_close_does_not_overtake_data() { vh_C14_L1_close_after_data_and_reuse() }
 func vh_C01_L6_failed_write_leaves_no_hole()  { vh_C18_L2_block_write_gate() }
 
+// C01.L7: accepted messages are not lost to a shutdown that begins while they are in flight
+// (= C08.L1d), nor to a skip sent on behalf of another, partially reliable stream (= C07.L2).
+func vh_C01_L7_delivered_despite_shutdown()       { vh_C08_L1_inflight_at_shutdown() }
+func vh_C01_L7_skip_never_covers_reliable_data() { vh_C07_L2_advance_only_over_abandoned() }
+
 // C01.L4b / C05.L0: the TSN tracking structure built by the real constructor for any
 // receive-buffer size can tell apart every TSN of the window it admits (two TSNs of one
 // window sharing a slot would make a never-received chunk look like a duplicate).
@@ -72,6 +77,7 @@ func vh_C01_L4_tracking_window_capacity() {
 	q := newReceivePayloadQueue(want)
 	vassert(q.maxTSNOffset >= want && q.maxTSNOffset < want+64, "the admitted window is the requested one rounded up to a word")
 	vassert(uint32(len(q.tsnBitmask))*64 >= q.maxTSNOffset, "the bitmap has a slot for every TSN of the admitted window")
+	vassert(q.maxTSNOffset <= 65535, "every TSN of the admitted window can be named by a 16-bit gap ack block offset")
 	// and for an arbitrary small request
 	small := uint32(1 + vPick(200))
 	qs := newReceivePayloadQueue(small)
